@@ -41,6 +41,8 @@ def pEv : P Ev := do
   else if t = "R" then do
     let s ← nat; let l ← nat; let t0 ← nat; let t1 ← nat; let ok ← nat; let mi ← nat; let la ← nat; let d ← many nat
     pure (.restore s l t0 t1 (ok ≠ 0) mi la d)
+  else if t = "RX" then do let s ← nat; let l ← nat; pure (.restoreDuringTransfer s l)
+  else if t = "RR" then do let s ← nat; let l ← nat; let c ← nat; let d ← many nat; pure (.restoreRefused s l c d)
   else if t = "X" then do let s ← nat; let l ← nat; let _ ← tok; pure (.dead s l)
   else if t = "Z" then do let s ← nat; let l ← nat; let tm ← nat; pure (.crash s l tm)
   else if t = "I" then do let c ← nat; pure (.invoke c)
@@ -87,12 +89,12 @@ def cmonFor : String → List CMon
   | "C05" => [commitLeLast, currentTermRule, ackedSurvive, streamsAgree]
   | "C07" => [configGated, nonVoterNeverElected]
   | "C14" => [isolatedTermConstant, rejoinQuiet]
-  | "C08" => [failedRestoreResidue, clientOutcomes, barrierOK, ackedSurvive, streamsAgree]
+  | "C08" => [refusedRestoreInert, failedRestoreResidue, clientOutcomes, barrierOK, ackedSurvive, streamsAgree]
   | "C09" => [verifyFresh]
   | "C13" => [leaseStepDown, calmStable]
-  | "C20" => [failedRestoreResidue, restoreOK, finalStatesEqual, allResolved]
+  | "C20" => [noRestoreDuringTransfer, refusedRestoreInert, failedRestoreResidue, restoreOK, finalStatesEqual, allResolved]
   | "C10" => [restartable, streamsInOrder]
-  | "C11" => [restartable, ackedSurvive]
+  | "C11" => [restartable, ackedSurvive, streamsAgree]
   | "C12" => [converged, majorityElects]
   | "C17" => [allResolved, shutdownCompletes]
   | "C18" => [notifyAlternates, leaderChLatest]
